@@ -87,7 +87,7 @@ def run_model(cases, driver=DRIVER, timeout=None):
             out.extend(run_model(cases[k:k + 250], driver))
         return out
     inp = "\n".join(encode_case(c) for c in cases) + "\n"
-    budget = timeout or (25 + 0.1 * len(cases))
+    budget = timeout or (60 + 0.5 * len(cases))
     try:
         p = subprocess.run(["bash", "-c", "ulimit -s unlimited 2>/dev/null; exec \"$0\"", driver], input=inp.encode(), stdout=subprocess.PIPE, stderr=subprocess.PIPE,
                            timeout=budget)
